@@ -5,7 +5,9 @@
 // block-number widths uint32 and uint64, in the given precommit order and every listed permutation.
 //
 // input (fields separated by one space, all numbers hex):
-//   vj <weights|-> <base> <parents|-> <headers|-> <fblk> <fnum> <tblk> <tnum> <round> <setid> <precommits|-> <perms|->
+//   vj <weights|-> <base> <parents|-> <headers|-> <fblk> <fnum> <tblk> <tnum> <round> <setid> <precommits|-> <perms|-> [<salt>]
+//     salt        optional: mixed into every header, so that the real block hashes sort differently
+//                 (the vote graph orders its candidates by hash; the verdict must not depend on it)
 //     weights     id:w,...  IDWeight list for NewVoterSet (id = index of a fixed universe of real keys)
 //     base, parents   the generated block tree (block i has parent p_i; number = base + depth); every block has a
 //                 real header (parent hash = hash of the parent's header); headers = labels of the blocks
@@ -72,11 +74,15 @@ type c19JCase struct {
 	round, setID          uint64
 	pcs                   []c19JPc
 	perms                 [][]int
+	salt                  uint64
 }
 
 func c19ParseJ(f []string) (c c19JCase, ok bool) {
-	if len(f) != 13 {
+	if len(f) != 13 && len(f) != 14 {
 		return c, false
+	}
+	if len(f) == 14 {
+		c.salt = vu.UnX(f[13])
 	}
 	if f[1] != "-" {
 		for _, w := range strings.Split(f[1], ",") {
@@ -121,7 +127,7 @@ func c19ParseJ(f []string) (c c19JCase, ok bool) {
 }
 
 // c19Headers builds the real headers of the tree at width N; returns headers and their hashes.
-func c19Headers[N runtime.Number](t c19Tree) ([]*generic.Header[N, hash.H256, runtime.BlakeTwo256], []hash.H256) {
+func c19Headers[N runtime.Number](t c19Tree, salt uint64) ([]*generic.Header[N, hash.H256, runtime.BlakeTwo256], []hash.H256) {
 	m := len(t.parents) + 1
 	hs := make([]*generic.Header[N, hash.H256, runtime.BlakeTwo256], m)
 	hh := make([]hash.H256, m)
@@ -131,7 +137,7 @@ func c19Headers[N runtime.Number](t c19Tree) ([]*generic.Header[N, hash.H256, ru
 			parent = hh[t.parents[i-1]]
 		}
 		tag := make([]byte, 32)
-		tag[0], tag[1] = byte(i+1), 0xc1
+		tag[0], tag[1], tag[2], tag[3] = byte(i+1), 0xc1, byte(salt), byte(salt>>8)
 		hs[i] = generic.NewHeader[N, hash.H256, runtime.BlakeTwo256](N(t.num(i)), hash.H256(string(tag)),
 			hash.H256(strings.Repeat("\x00", 32)), parent, runtime.Digest{})
 		hh[i] = hs[i].Hash()
@@ -191,7 +197,7 @@ func c19VerifyJ[N runtime.Number](c c19JCase, voters *grandpa.VoterSet[string], 
 			out = "panic"
 		}
 	}()
-	hs, hh := c19Headers[N](c.tree)
+	hs, hh := c19Headers[N](c.tree, c.salt)
 	var pcs []grandpa.SignedPrecommit[hash.H256, N, primitives.AuthoritySignature, primitives.AuthorityID]
 	bits = make([]bool, len(c.pcs))
 	labels = make([]string, len(c.pcs))
@@ -260,6 +266,14 @@ func c19RunJ(in string) string {
 
 func c19GenJ(r *vu.RNG, n int, emit func(string)) {
 	for i := 0; i < n; i++ {
+		if i%6 == 5 { // the nested-fork family, headers salted
+			c := c19GenNested(r)
+			pcs := c.pcString(func(int) string { return "v" })
+			emit(fmt.Sprintf("vj %s %s %s %s %s %s %s %s %s %s %s %s %s", c.weights, vu.X(c.tree.base), c19Join(c.tree.parents),
+				c19Join(c.headers), vu.X(uint64(c.tblk)), vu.X(c.tnum), vu.X(uint64(c.tblk)), vu.X(c.tnum),
+				vu.X(uint64(1+r.Intn(3))), vu.X(uint64(r.Intn(3))), pcs, c19GenPerms(r, len(c.pcs)), vu.X(c.salt)))
+			continue
+		}
 		c := c19GenCommit(r)
 		fblk, fnum := c.tblk, c.tnum
 		if r.Chance(1, 30) {
